@@ -19,7 +19,7 @@ def showTy : Ty → String
   | .agg k b => kindLetter k ++ showTy b
 
 def parseTyChars : List Char → Option Ty
-  | [d] => if d.isDigit && d.toNat - '0'.toNat < 5 then some (.simple (d.toNat - '0'.toNat)) else none
+  | [d] => if d.isDigit && d.toNat - '0'.toNat < 6 then some (.simple (d.toNat - '0'.toNat)) else none
   | k :: rest =>
     match k, parseTyChars rest with
     | 'A', some b => some (.agg .array b) | 'L', some b => some (.agg .list b)
@@ -46,11 +46,11 @@ def parseHi (s : String) : Option (Option Int) :=
 def parseOp : List String → Option Op
   | ["set", i, t, v] => do
     let i ← i.toInt?; let t ← parseTy t; let v ← v.toNat?
-    pure (.set i ⟨t, v⟩)
+    if t = .simple 5 then none else pure (.set i ⟨t, v⟩)      -- NUMBER has no values of its own
   | ["get", i] => do let i ← i.toInt?; pure (.get i)
   | ["add", t, v] => do
     let t ← parseTy t; let v ← v.toNat?
-    pure (.add ⟨t, v⟩)
+    if t = .simple 5 then none else pure (.add ⟨t, v⟩)
   | ["size"] => some .size | ["hiindex"] => some .hiindex | ["loindex"] => some .loindex
   | ["hibound"] => some .hibound | ["lobound"] => some .lobound | ["unique"] => some .unique
   | _ => none
